@@ -1,0 +1,26 @@
+//! Verification hooks. This module only exists when the crate is compiled with
+//! `--cfg uflow_verif`; a normal build does not contain any of it.
+//!
+//! It provides the seams a deterministic simulator needs: a virtual clock (`time`), a seeded
+//! random source (`rand`), a simulated UDP socket (`net`), a trace tap (`trace`), and re-exports
+//! of otherwise crate-private protocol types.
+
+#![allow(missing_docs)]
+#![allow(dead_code)]
+
+pub mod time;
+pub mod rand;
+pub mod net;
+pub mod trace;
+
+pub use crate::half_connection::HalfConnection;
+pub use crate::half_connection::Config as HalfConnectionConfig;
+pub use crate::half_connection::FrameSink;
+pub use crate::half_connection::PacketSink;
+
+pub use crate::frame::serial::Serialize;
+pub use crate::frame::{
+    AckFrame, AckGroup, DataFrame, Datagram, DisconnectAckFrame, DisconnectFrame, Frame,
+    HandshakeAckFrame, HandshakeErrorFrame, HandshakeErrorType, HandshakeSynAckFrame,
+    HandshakeSynFrame, SyncFrame,
+};
